@@ -25,9 +25,52 @@ PROPS = {
             J("gf2", "C08_times_small", bound="operands < 2^10, loop fully unrolled (cross-check of the cut)"),
             J("gf2", "C08_div_cut", bound="all 64-bit operands, divisor != 0; loop cut by invariant clmul(q,d) ^ r = p; shift amount case-split 0..63; ilog2 replaced by its verified specification"),
             J("gf2", "C08_div_small", tier="thorough", bound="operands < 2^8, loop fully unrolled"),
+            J("gf2p16", "C08_T_plusminus", bound="all 2^32 operand pairs"),
+            J("gf2p16", "C08_mod_lemmas", bound="all integers 0 <= a,b < 65535 (integer theory)"),
+            J("gf2p16", "C08_T_times", bound="all 2^32 operand pairs; tables abstracted to uninterpreted functions constrained by the instances of the homomorphism H and log-inverts-exp at the operands", must_reach=["nonzero"]),
+            J("gf2p16", "C08_T_inverse", bound="all non-zero elements; same abstraction"),
+            J("gf2p16", "C08_T_div", bound="all operand pairs with non-zero divisor; same abstraction", must_reach=["nonzero"]),
+            J("gf2p16", "C08_T_pow", bound="all bases, all exponents 0..2^32-1; integer mode with no-overflow obligations on every operation"),
+            J("gf2p16", "C08_table_inverse", bound="all 65535 entries of the dumped tables (constant folding)"),
+            J("gf2p16", "C08_table_step_0", bound="table entries 0..16383, symbolic position inside each 256-entry chunk"),
+            J("gf2p16", "C08_table_step_1", bound="table entries 16384..32767"),
+            J("gf2p16", "C08_table_step_2", bound="table entries 32768..49151"),
+            J("gf2p16", "C08_table_step_3", bound="table entries 49152..65534"),
+        ],
+    ),
+    "C09": dict(
+        explanation="bulk multiply kernels: table contents, dispatch arithmetic for every length, portable loops, exported entry points; assembly by asmsym",
+        assumptions=["the assembly kernels are used through their contract in the gosym harnesses; the contract itself is discharged by the asmsym jobs of this property"],
+        jobs=[
+            J("gf2p16", "C09_table_mulTable", bound="every outer index i (symbolic), all 256 inner entries; T.Times replaced by its C08 contract"),
+            J("gf2p16", "C09_table_mulTable64", bound="every outer index i (symbolic), all 16 inner entries x 8 sub-tables"),
+            J("gf2p16", "C09_dispatch_mul", bound="every even length 0..2^62, both dispatch flags; buffers abstract (no contents)"),
+            J("gf2p16", "C09_dispatch_muladd", bound="every even length 0..2^62, both dispatch flags"),
+            J("gf2p16", "C09_size_mismatch", bound="all pairs of different lengths"),
+            J("gf2p16", "C09_generic_mul", bound="0..4 words, symbolic constant and contents"),
+            J("gf2p16", "C09_generic_muladd", bound="0..4 words"),
+            J("gf2p16", "C09_slice_generic", bound="0..3 words"),
+            J("gf2p16", "C09_exported_mul", bound="every even length 0..70 bytes, symbolic constant, contents and SSSE3 flag"),
+            J("gf2p16", "C09_exported_muladd", bound="every even length 0..70 bytes"),
+            J("gf2p16", "C09_platformLE", bound="0..19 words through the unsafe []T<->[]byte views"),
+        ],
+    ),
+    "C11": dict(
+        explanation="matrix inversion / row reduction on the real rowReduceForInverse, Inverse, RowReduceForInverse, Times, clone, swapRows, scaleRow, addScaledRow",
+        assumptions=["T.Times is replaced by its C08 contract (gfmul); row kernels by their C09 contract",
+                     "fully symbolic GF(2^16) matrices are outside the claim: symbolic matrices have 0/1 entries, 16-bit symbolic data appears only on the right-hand side"],
+        jobs=[
+            J("gf2p16", "C11_inverse_01", bound="every 0/1 matrix of dimension 1..3 (symbolic bits)", must_reach=["singular", "nonsingular"]),
+            J("gf2p16", "C11_rowreduce_01", bound="every 0/1 matrix of dimension 1..2 with a fully symbolic n x 2 right-hand side", must_reach=["nonsingular"]),
+            J("gf2p16", "C11_rowreduce_01_n3", tier="thorough", bound="every 0/1 matrix of dimension 1..3 with symbolic right-hand side"),
+            J("gf2p16", "C11_rowreduce_concrete", bound="10 concrete structured matrices (swaps at every pivot, non-unit pivots, rank deficient) x fully symbolic n x 2 right-hand side", must_reach=["singular", "nonsingular"]),
+            J("gf2p16", "C11_times", bound="2x2 by 2x2 fully symbolic"),
         ],
     ),
 }
+
+
+NOT_APPLICABLE = {}
 
 
 def run_special(job, scratch, repo, verif, goenv, tier, seed):
